@@ -85,15 +85,26 @@ DIR_WORDS = ['music', 'rock', 'live', 'song', 'long', 'mix', '2001', 'caf√©', 'Ê
 EXTS = ['mp3', 'mp3', 'MP3', 'flac', 'ogg', 'txt', 'm4a']
 JOINERS = [' ', ' ', ' ', '_', '-', '.', ' - ', ' & ', "'", '&']
 PUNCT = ['_', '-', '.', "'", '&', '(', ')', '[', ']']
+# words with letters whose case-folded form differs from their lower-case form (sharp s, final sigma, micro sign, a
+# ligature): they are used exactly as spelt here (never upper-cased or title-cased, so "case-insensitively" stays
+# unambiguous), in names and in queries
+SPECIAL_WORDS = ['stra\u00dfe', 'wei\u00dfes', '\u03bf\u03b4\u03c5\u03c3\u03c3\u03ad\u03b1\u03c2', '\u00b5ziq', '\ufb01le']
+SPECIAL_CHARS = set('\u00df\u03c2\u00b5\ufb01') | set('\u03bf\u03b4\u03c5\u03c3\u03ad\u03b1')
 ALPHABET = set(''.join(WORDS + DIR_WORDS + EXTS))
 for _c in ALPHABET:   # the stated exclusion, enforced
     assert len(_c.upper()) == 1 and len(_c.lower()) == 1 and _c.upper().lower() == _c.lower() and _c.isalnum(), _c
+
+
+WORDS = WORDS + SPECIAL_WORDS
+DIR_WORDS = DIR_WORDS + SPECIAL_WORDS[:2]
 
 
 # ----------------------------------------------------------------------------- generator
 
 def _case(rng, w):
     r = rng.random()
+    if SPECIAL_CHARS & set(w):
+        return w
     return w if r < 0.6 else w.title() if r < 0.85 else w.upper()
 
 
@@ -204,7 +215,7 @@ def gen_term(rng, kind, tree_words, names, paths):
             text = w + rng.choice(['s', '1', 'a'])
         else:
             text = w
-    if rng.random() < 0.15:
+    if rng.random() < 0.15 and not (SPECIAL_CHARS & set(text)):
         text = text.upper()
     return text
 
@@ -256,7 +267,8 @@ def generate(rng, index, tier):
     nsteps = rng.randint(2, 8)
     while len(steps) < nsteps:
         ops = (['add'] * 22 + ['remove'] * 14 + ['update'] * 5 + ['scan_all'] * 14 + ['scan_one'] * 10 +
-               ['touch'] * 4 + ['create'] * 6 + ['delete'] * 8 + ['rename'] * 5 + ['gc_now'] * 8 + ['reload'] * 3)
+               ['touch'] * 4 + ['create'] * 6 + ['delete'] * 8 + ['rename'] * 5 + ['gc_now'] * 8 + ['reload'] * 3 +
+               ['rmtree'] * 3)
         if not shared:
             ops += ['add'] * 40
         op = rng.choice(ops)
@@ -326,6 +338,10 @@ def generate(rng, index, tier):
                     live.remove(f)
                     live.append(to)
                     steps.append({'op': 'rename', 'file': list(f), 'to': list(to)})
+        elif op == 'rmtree':
+            d = rng.choice(shared) if shared and rng.random() < 0.7 else rng.choice(dirs)
+            steps.append({'op': 'rmtree', 'dir': list(d), 'as_file': rng.random() < 0.3})
+            live[:] = [f for f in live if f[:len(d)] != list(d)]
         elif op == 'reload':
             steps.append({'op': 'reload'})
             shared[:] = [list(e['dir']) for e in initial]
@@ -384,6 +400,21 @@ def corpus(tier):
         {'q': 'mp3', 'max': 2}, {'q': 'mp3', 'max': 1}, {'q': 'mp3', 'max': 5}, 'mp3 mp3', '* song', 'song *',
         '- * .', 'live).mp3', '*ve).mp3', '*-song', 'song -*ong',
     ]))
+    # 1b. letters whose case-folded form differs from the lower-case one, spelt the same in name and query
+    tree = _files('m/wei\u00dfes stra\u00dfe.mp3', 'm/gro\u00dfe freiheit.mp3', 'm/\u03bf\u03b4\u03c5\u03c3\u03c3\u03ad\u03b1\u03c2 song.mp3',
+                  'm/\u00b5ziq - long.flac', 'm/\ufb01le one.ogg', 'm/strasse.mp3')
+    out.append(_base(tree, [['m']], [], [
+        'stra\u00dfe', 'wei\u00dfes', '*ra\u00dfe', '*\u00dfe', 'gro\u00dfe -mp3', 'gro\u00dfe -flac', 'mp3 -stra\u00dfe', '\u03bf\u03b4\u03c5\u03c3\u03c3\u03ad\u03b1\u03c2',
+        '*\u03ad\u03b1\u03c2', '\u00b5ziq', '*ziq', '\ufb01le', '\ufb01le one', 'strasse', '*asse', 'song -\u03bf\u03b4\u03c5\u03c3\u03c3\u03ad\u03b1\u03c2']))
+    # 1c. the root of a shared directory (top-level / nested) vanishes from disk or becomes a plain file, then a rescan
+    tree = _files('p/one song.mp3', 'p/c/song.mp3', 'p/c/d/deep song.mp3', 'q/other song.mp3')
+    for initial in ([['p'], ['p', 'c']], [['p', 'c']], [['p'], ['q']]):
+        for victim in (['p', 'c'], ['p']):
+            for as_file in (False, True):
+                for scan in ({'op': 'scan_all', 'wait': True}, {'op': 'scan_one', 'dir': initial[-1], 'wait': True, 'attrs': False}):
+                    out.append(_base(tree, initial, [{'op': 'scan_all', 'wait': True}, {'op': 'query'},
+                                                      {'op': 'rmtree', 'dir': victim, 'as_file': as_file}, scan,
+                                                      {'op': 'query'}], ['song', 'deep', 'one', 'mp3']))
     # 2. removed top-level directory: not queryable any more (handle kept / dropped / collection)
     tree = _files('a/song.mp3', 'a/x/long.mp3', 'b/song two.mp3')
     for keep in (False, True):
@@ -585,6 +616,7 @@ def _run(world: World, plan, restore):
              'ref_nonempty': False}
     sig_steps = []
     sig_queries = set()
+    file_roots = set()          # directories that were replaced by a plain file of that name
 
     # ------------------------------------------------------------------ fault
     fault = plan.get('fault')
@@ -888,7 +920,9 @@ def _run(world: World, plan, restore):
     async def do_step(i, step):
         op = step['op']
         label = f"s{i}:{op}"
-        if op == 'add':
+        if op == 'add' and P(step['dir']) in file_roots:
+            sig_steps.append(('add', 'skipped'))
+        elif op == 'add':
             path = P(step['dir'])
             relation = model.relation(path)
             mode = DirectoryShareMode(step.get('mode', 'everyone'))
@@ -974,6 +1008,25 @@ def _run(world: World, plan, restore):
                 note_disk_change(path)
                 state['dirty'] = True
             sig_steps.append(('delete', bool(scans)))
+        elif op == 'rmtree':
+            # a directory (possibly the root of a shared directory, possibly a nested one) disappears from disk, or is
+            # replaced by a plain file of that name
+            import shutil
+            path = P(step['dir'])
+            if os.path.isdir(path):
+                for base, _dirs, names in os.walk(path):
+                    for name in names:
+                        note_disk_change(os.path.join(base, name))
+                shutil.rmtree(path, ignore_errors=True)
+                if step.get('as_file') and not model.is_shared(path):
+                    # (a plain file at the path of a configured shared directory is neither "a file under a shared
+                    # directory" nor a directory: not generated)
+                    with open(path, 'wb') as fh:
+                        fh.write(b'not a directory')
+                    file_roots.add(path)
+                world.disk.fired['directory_vanished'] += 1
+                state['dirty'] = True
+            sig_steps.append(('rmtree', model.is_shared(path), bool(step.get('as_file')), bool(scans)))
         elif op == 'rename':
             src, dst = P(step['file']), P(step['to'])
             if os.path.isfile(src) and not os.path.exists(dst):
